@@ -165,6 +165,52 @@ def run(ctx):
     core.parallel(ctx, work, sts)
     sample_roundtrip(ctx)
     huge_offsets(ctx)
+    random_archives(ctx, random.Random(ctx.seed + 2020), 300 if thorough else 60)
+
+
+def random_archives(ctx, rng, n):
+    """B: random larger archives (up to 12 members); the listing (order, header offsets) of the real reader is recorded and
+    validated by TLC against the layout the specification derives (Vmtar!TraceSpec); contents are compared in Python."""
+    from dissect.hypervisor.util import vmtar
+    from harness import tracecheck
+    runs = []
+    for tid in range(1, n + 1):
+        k = rng.randrange(3, 13)
+        ms = []
+        for i in range(k):
+            d = rng.random() < 0.15
+            visor = rng.random() < 0.7
+            size = 0 if d else rng.choice([0, 1, 511, 512, 513, 1024, 3000, 70000])
+            inline = d or size == 0 or not visor or rng.random() < 0.2
+            ms.append({"visor": visor, "dir": d, "size": size, "inline": inline, "slot": 1})
+        ext = [m for m in ms if not m["inline"]]
+        order = list(range(1, len(ext) + 1))
+        rng.shuffle(order)
+        for m, sl in zip(ext, order):
+            m["slot"] = sl
+        members = concretise(ms, rng, {"salt": tid})
+        blob, _ = enc_vmtar.build(members, data_align=rng.choice([4096, 512, 1]), data_gap=rng.choice([0, 7, 1536]))
+        try:
+            t = vmtar.open(fileobj=io.BytesIO(blob))
+            got = t.getmembers()
+            listed = []
+            for g in got:
+                idx = next((i + 1 for i, m in enumerate(members) if m["name"].rstrip("/") == g.name), 0)
+                listed.append([idx, g.offset])
+                if g.isfile() and idx and t.extractfile(g).read() != members[idx - 1]["data"]:
+                    ctx.violation({"variant": "random-archives", "fail": "extract-mismatch"}, {"members": ms, "member": g.name})
+        except Exception as e:  # noqa: BLE001
+            ctx.violation({"variant": "random-archives", "fail": "raised", "exc": type(e).__name__}, {"members": ms, "error": repr(e)[:200]})
+            continue
+        ctx.case(key=("random", repr(ms)), nontrivial=True)
+        runs.append({"tid": tid, "members": ms, "listed": listed})
+    if runs:
+        verdicts, res = tracecheck.validate("Vmtar", "TraceVmtar.cfg", runs)
+        ctx.add_tlc("TraceVmtar.cfg (random archives)", res)
+        for r in runs:
+            ctx.traces_validated += 1
+            if verdicts[r["tid"]][0] == "reject":
+                ctx.violation({"variant": "random-archives", "fail": "listing"}, {"members": r["members"], "listed": r["listed"]})
 
 
 def sample_roundtrip(ctx):
